@@ -149,10 +149,11 @@ def _expected_rows(part, opts):
     sc = _sc()
     rows = []
     notes = O.sounding_notes(part)
+    mus = bool(getattr(part, "_use_musical_beat", False))
     for (on, dur, pitch, n) in notes:
         r = {"onset_div": on, "duration_div": dur, "pitch": pitch, "id": n.id, "voice": n.voice,
              "onset_quarter": O.quarter_pos(part, on), "duration_quarter": O.quarter_pos(part, on + dur) - O.quarter_pos(part, on),
-             "onset_beat": O.beat_pos(part, on), "duration_beat": O.beat_pos(part, on + dur) - O.beat_pos(part, on)}
+             "onset_beat": O.beat_pos(part, on, mus), "duration_beat": O.beat_pos(part, on + dur, mus) - O.beat_pos(part, on, mus)}
         if opts.get("include_pitch_spelling"):
             r.update(step=n.step, alter=n.alter or 0, octave=n.octave)
         if opts.get("include_key_signature"):
@@ -254,6 +255,18 @@ def _parts(tier):
                                                                rests=[("r0", 2, 2, 1, 1), ("r1", 18, 3, None, None), ("r2", 21, 1, 1, 1)], measures=[(0, 12), (12, 24)], key=(1, "major"))))
     out.append(("two_two_then_three_eight_rests", lambda: G.build_part("P1", 2, ts=((0, 2, 2), (8, 3, 8)), notes=[("a", 0, 3, "C", None, 4, 1, 1), ("b", 4, 4, "D", None, 4, 1, 1), ("c", 9, 2, "E", None, 4, 1, 1)],
                                                                        rests=[("r0", 3, 1, 1, 1), ("r1", 8, 1, 1, 1)], measures=[(0, 8), (8, 11)])))
+    def counted_in_two():
+        p = G.build_part("P1", 4, ts=((0, 4, 4), (32, 3, 4)), notes=[("a", 0, 6, "C", None, 4, 1, 1), ("b", 6, 10, "D", None, 4, 1, 1), ("c", 16, 16, "E", None, 4, 1, 1), ("d", 34, 4, "F", None, 4, 1, 1)],
+                         measures=[(0, 16), (16, 32), (32, 44)])
+        p.use_musical_beat({"4/4": 2, "3/4": 1})
+        return p
+    out.append(("four_four_counted_in_two_musical_beats", counted_in_two))
+
+    def six_eight_musical():
+        p = G.build_part("P1", 2, ts=((0, 6, 8),), notes=[("a", 0, 3, "C", None, 4, 1, 1), ("b", 3, 3, "D", None, 4, 1, 1), ("c", 6, 5, "E", None, 4, 1, 1)], measures=[(0, 6), (6, 12)])
+        p.use_musical_beat()
+        return p
+    out.append(("six_eight_default_musical_beats", six_eight_musical))
     if tier == "thorough":
         out.append(("plain", lambda: G.build_part("P1", 1, notes=[("a", 0, 4, "C", None, 4, 1, 1), ("b", 4, 4, "D", None, 4, 1, 1)])))
     return out
